@@ -342,6 +342,7 @@ func (x *seqExec) runScript(id string, sc SScript, profile string) *seqFail {
 	ctx := context.Background()
 	specOn := !sc.Collide
 	seen := map[string]bool{}
+	expirySeen := false // an entry with an expiry has been in this cache (the scan of an Unlimited cache may not be skipped)
 
 	x.ambigInScript = false
 	if cfg.RealJanitor {
@@ -523,6 +524,11 @@ func (x *seqExec) runScript(id string, sc SScript, profile string) *seqFail {
 		case "cleanup":
 			before, _ := dumpImpl(b, keys)
 			_, mb := dumpImpl(b, keys)
+			for _, e := range mb {
+				if e.E != 0 {
+					expirySeen = true
+				}
+			}
 			neededAns = op.Needed
 			evBefore := stats.Get(cache.MetricEvict, cfg.Name)
 			nc := neededCalls
@@ -547,6 +553,26 @@ func (x *seqExec) runScript(id string, sc SScript, profile string) *seqFail {
 			}
 			_ = nc
 			evicted := stats.Get(cache.MetricEvict, cfg.Name) - evBefore
+			// C11 oracle, independent of the model: without any limit configured a cycle removes exactly the entries whose
+			// expiry lies more than DeleteExpiredAfter in the past (never-expiring, fresh and recently expired ones stay)
+			if cfg.CSL == 0 && !op.Needed {
+				dea := int64(cfg.DEA)
+				if dea == 0 {
+					dea = int64(24 * time.Hour)
+				}
+				scanOn := cfg.TTL != cache.UnlimitedTTL || expirySeen
+				for kid2, e := range mb {
+					_, kept := ma[kid2]
+					longExpired0 := e.E != 0 && e.E < t0-dea
+					longExpired1 := e.E != 0 && e.E < t1-dea
+					if !kept && !longExpired1 {
+						return &seqFail{"monitor", "C11", "seq:cleanup-removed-live", fmt.Sprintf("op #%d cleanup removed key #%d whose expiry %d is not more than DeleteExpiredAfter (%dns) before the cycle [%d,%d] (0 = never expires); state before: %s", i, kid2, e.E, dea, t0, t1, before), i, nil}
+					}
+					if kept && scanOn && longExpired0 {
+						return &seqFail{"monitor", "C11", "seq:cleanup-kept-long-expired", fmt.Sprintf("op #%d cleanup kept key #%d although its expiry %d lies more than DeleteExpiredAfter (%dns) before the cycle [%d,%d]; state before: %s", i, kid2, e.E, dea, t0, t1, before), i, nil}
+					}
+				}
+			}
 			r := x.d.Ask(fmt.Sprintf("be cleanup %s %d %d ho=0 so=0 hn=1 needed=%d removed=%s evicted=%d", id, t0, t1, needed, rm, evicted))
 			x.res.count("cleanup:" + strings.Fields(r)[0])
 			if r == "ambig" {
